@@ -244,7 +244,7 @@ def arrayexpr_case(c):
 
 ARRAY_EXPRS = ["M + N", "M - N", "N - M", "M + M", "-M", "M + N - M", "M * N", "N * M - N"]     # (array with scalar is not claimed by any property; the implementation refuses it)
 
-ROLES = ["scalar", "scalar2", "array", "loop", "looplist", "param", "keyword"]
+ROLES = ["scalar", "scalar2", "array", "loop", "looplist", "looplist-self", "param", "keyword"]
 
 
 def role_items(role, v, k):
@@ -260,6 +260,9 @@ def role_items(role, v, k):
         return [("for", "int", v, ("range", 0, 2, None), [("stmt", "L%d" % k, [V(v)], [], [V(v)], "none")])]
     if role == "looplist":
         return [("for", "float", v, ("vals", [N("0.5"), N("1.5")], "sq"), [("stmt", "M%d" % k, [], [("k", V(v))], [N("1")], "none")])]
+    if role == "looplist-self":
+        # the listed values mention the name itself (it must have been declared before; they are evaluated before the loop starts)
+        return [("for", "float", v, ("vals", [V(v), B("*", N("2"), V(v)), B("+", B("*", N("4"), V(v)), N("1"))], "sq"), [("stmt", "S%d" % k, [V(v)], [], [N("1")], "none")])]
     if role == "param":
         return [("stmt", "P%d" % k, [B("*", N("2"), P(v))], [], [N("0")], "none")]
     if role == "keyword":
@@ -286,8 +289,8 @@ def nameroles_case(c):
             break
         except denote.Refused:
             m = None
-        except denote.OutOfDomain:
-            return None
+        except (denote.OutOfDomain, AttributeError, TypeError):
+            return None         # (an array used as a number: not a valid script)
     if m is None:
         return None
     text = lang.render(sc)
